@@ -1,6 +1,6 @@
 """C15 — DNS client: reply parsing is total and bounded; each lookup completes once (tbox::network::DnsRequest)."""
 ID = 'C15'
-LEAN_MODULES = ['TboxModel.C15.Props', 'TboxModel.C15.PropsNet']
+LEAN_MODULES = ['TboxModel.C15.Props', 'TboxModel.C15.PropsNet', 'TboxModel.C15.PropsClock']
 EXE = 'c15'
 THEOREMS = ['Tbox.C15.C15_terminates', 'Tbox.C15.C15_terminates_bound', 'Tbox.C15.C15_terminates_reply',
             'Tbox.C15.C15_no_uninit_no_oob', 'Tbox.C15.C15_only_encoded', 'Tbox.C15.C15_only_encoded_callbacks',
@@ -20,7 +20,11 @@ THEOREMS = ['Tbox.C15.C15_terminates', 'Tbox.C15.C15_terminates_bound', 'Tbox.C1
             'Tbox.C15.C15_query_roundtrip_counterexample_label256', 'Tbox.C15.C15_u16be_value', 'Tbox.C15.C15_query_id_field',
             'Tbox.C15.C15_recv_faults_harmless', 'Tbox.C15.C15_sock_delivers', 'Tbox.C15.C15_truncated_only_encoded',
             'Tbox.C15.C15_query_echo_ignored', 'Tbox.C15.C15_own_query_ignored', 'Tbox.C15.C15_question_not_compared',
-            'Tbox.C15.C15_parse_cost_linear', 'Tbox.C15.C15_parse_cost_inflated_example', 'Tbox.C15.C15_inflated_counts_dropped']
+            'Tbox.C15.C15_parse_cost_linear', 'Tbox.C15.C15_parse_cost_inflated_example', 'Tbox.C15.C15_inflated_counts_dropped',
+            # round 4 (PropsClock.lean): arbitrary clock advances (late passes, jumps), destruction with lookups outstanding
+            'Tbox.C15.C15_clock_callback_once', 'Tbox.C15.C15_destroyed_never_called', 'Tbox.C15.C15_destroy_quiesces',
+            'Tbox.C15.C15_pass_is_ticks', 'Tbox.C15.C15_timer_phase', 'Tbox.C15.C15_outstanding_at_most_5_seconds', 'Tbox.C15.C15_reply_for_next_id_ignored',
+            'Tbox.C15.C15_catchup_zero_delay_example']
 import vlib
 SOURCES = (['modules/network/dns_request.cpp', 'modules/network/udp_socket.cpp', 'modules/network/socket_fd.cpp',
             'modules/network/sockaddr.cpp', 'modules/network/ip_address.cpp',
@@ -31,18 +35,18 @@ LIBS = ['-ldl']
 BATCH = 150
 MAX_REPORT = 6
 SHRINK_TESTS = 60
-TRUSTED = ['interposed sendto/recvfrom in props/C15/harness.cpp: the kernel\'s answers to the client\'s socket calls come from the op file (errno per call index); a sendto failed by the schedule sends nothing and leaves the socket unbound, the harness then binds it to an ephemeral port itself before delivering a datagram',
+TRUSTED = ['interposed socket/epoll_ctl/close in props/C15/harness.cpp only observe (which descriptor the client opened, whether the loop watches it, whether the destructor closed it: `M udp=`, `M released=` lines)', 'interposed sendto/recvfrom in props/C15/harness.cpp: the kernel\'s answers to the client\'s socket calls come from the op file (errno per call index); a sendto failed by the schedule sends nothing and leaves the socket unbound, the harness then binds it to an ephemeral port itself before delivering a datagram',
            'model lean/TboxModel/C15/{Deserializer,Model}.lean is hand-written from modules/network/dns_request.cpp, modules/network/udp_socket.cpp (onSocketEvent, send), modules/util/string.cpp (Split), '
-           'modules/util/serializer.cpp (Deserializer) and modules/eventx/timeout_monitor_impl.hpp with patches/C15-01..04 applied; '
+           'modules/util/serializer.cpp (Deserializer) and modules/eventx/timeout_monitor_impl.hpp with patches/C15-01..04 applied; lean/TboxModel/C15/Clock.lean (when the monitor\'s timer fires: addTimer/handleExpiredTimers of modules/event/common_loop_timer.cpp restricted to that one timer; ~DnsRequest) likewise; '
            'tied by differential runs',
            'harness/vtime.h virtual clock (libc interposition) and harness/loopdrv.h; the loop, TimerEvent and UdpSocket are the real ones',
            'uninitialised reads are expressed in the model as reads of an unset destination; on the implementation side only '
            'ASan/UBSan observe memory errors (an uninitialised read that does not change an observable is not seen at run time)']
 ASSUMPTIONS = ['no datagram arrives on the real UDP socket during a run (queries go to 127.0.0.1-3:53, nothing listens)',
                'the DnsRequest object is not destroyed from inside one of its callbacks (TimeoutMonitor/UdpSocket assert cb_level_ == 0 in their destructors); a datagram that reaches the UDP socket while nothing is outstanding (socket disabled) is discarded by the harness instead of waiting in the kernel queue for the next request() (onUdpRecv would drop it as unknown id unless the id is handed out again first)',
-               'the clock advances in whole seconds between operations (one timer firing per tick)',
+               'the steady clock only moves between loop passes (`adv <ms>`, any amount below 2^34 ms; `tick` = 1000 ms) and stands still inside a pass; the 64-bit millisecond clock does not wrap',
                'kernel semantics assumed for the UDP socket: recvfrom without MSG_TRUNC returns min(datagram, buffer) bytes and discards the rest; a failed recvfrom consumes nothing; sendto of more than 65 507 bytes fails with EMSGSIZE; datagrams sent over loopback from one socket are queued in order and are readable in the next loop pass']
-RULE = ('op sequences (servers/defscript/lookup/lookupn/cancel/running/recv/recva/net/sock/tick/churn/burst; `lookupn` = request() for an arbitrary byte string as name (labels of 63/64/191/192/255/256/257 bytes, names of 253..400 bytes, empty labels, trailing/leading dots, NUL and non-ASCII bytes, a 66 KB name) with the kernel\'s answer to every sendto taken from the op line (ENETUNREACH/EPERM/EAGAIN/ENOBUFS/EINTR, all or some servers); every query datagram seen by the interposed sendto is compared byte for byte with the model\'s encoder; `sock` = a schedule of recvfrom answers (EINTR/EAGAIN/ECONNREFUSED/ECONNRESET/EIO/ENOBUFS before, between and after queued datagrams, empty datagrams), one loop pass per answer; `recva k` = onUdpRecv with the datagram at address = k mod 8, flush against the end of its heap block; `net` sends the datagram to the client\'s real UDP socket; a lookup\'s callback is a script of API calls — new lookups with their own scripts, cancels of other lookups and of the own one — executed inside the reply/error/all-servers-failed/timeout callback) from props/C15/plugin.py: replies built from a structured DNS '
+RULE = ('op sequences (servers/defscript/lookup/lookupn/cancel/running/recv/recva/net/sock/tick/adv/destroy/churn/burst; `adv <ms>` = the virtual steady clock moves by any amount (1 ms .. 2^33 ms: sub-second steps, late passes, jumps of hours, across 2^31/2^32 ms) and the next loop pass catches the monitor\'s timer up; `destroy <n>` = ~DnsRequest() with whatever is outstanding followed by a fresh object with n servers (0: one-argument constructor); state-derived datagrams: the id the next request() will get, ids re-issued after the 16-bit counter wrapped or by the next object, the same datagram twice in one pass; `lookupn` = request() for an arbitrary byte string as name (labels of 63/64/191/192/255/256/257 bytes, names of 253..400 bytes, empty labels, trailing/leading dots, NUL and non-ASCII bytes, a 66 KB name) with the kernel\'s answer to every sendto taken from the op line (ENETUNREACH/EPERM/EAGAIN/ENOBUFS/EINTR, all or some servers); every query datagram seen by the interposed sendto is compared byte for byte with the model\'s encoder; `sock` = a schedule of recvfrom answers (EINTR/EAGAIN/ECONNREFUSED/ECONNRESET/EIO/ENOBUFS before, between and after queued datagrams, empty datagrams), one loop pass per answer; `recva k` = onUdpRecv with the datagram at address = k mod 8, flush against the end of its heap block; `net` sends the datagram to the client\'s real UDP socket; a lookup\'s callback is a script of API calls — new lookups with their own scripts, cancels of other lookups and of the own one — executed inside the reply/error/all-servers-failed/timeout callback) from props/C15/plugin.py: replies built from a structured DNS '
         'encoder (A/CNAME/other records, compression pointers, chains of 1..18 pointers) then mutated (truncation at every '
         'offset, inflated counts, self/looping/out-of-range pointers, NUL and long labels, wrong rdlength, rcodes, QR bit, '
         'foreign ids, bit flips) plus a random-bytes stream; non-trivial = at least one callback ran and at least one datagram '
@@ -220,7 +224,7 @@ def long_name(total, end=b'\0'):
     return out + end
 
 
-BOUNDARY_FAMILIES = ['ptr-last-byte', 'ptr-forward', 'ptr-header', 'ptr-hops', 'label-63', 'label-64', 'name-253', 'name-255',
+BOUNDARY_FAMILIES = ['cname-self', 'cname-loop', 'cname-chain', 'owner-literal', 'ptr-last-byte', 'ptr-forward', 'ptr-header', 'ptr-hops', 'label-63', 'label-64', 'name-253', 'name-255',
                      'name-256', 'name-long', 'rdlen-over', 'rdlen-under', 'an-over', 'an-under', 'hdr-cut', 'qd0', 'qd2',
                      'qd2-short', 'flags', 'ttl', 'type-class', 'a-rdlen']
 
@@ -232,6 +236,23 @@ def boundary_reply(rng, rid, fam):
     a_rec = lambda name, ttl=300, ip=b'\x5d\xb8\xd8\x22', rdlen=4: name + u16(1) + u16(1) + u32(ttl) + u16(rdlen) + ip
     cn_rec = lambda name, target, rdlen=None: name + u16(5) + u16(1) + u32(60) + u16(len(target) if rdlen is None else rdlen) + target
     body = hdr(rid, 0x8180, 1, 1) + q
+    if fam == 'cname-self':         # the queried name is an alias of ITSELF (target = pointer to the question / a literal copy), with and without an address
+        tgt = rng.choice([ptr(12), qn, b'\x03www' + ptr(16)])
+        d = hdr(rid, 0x8180, 1, 2) + q + cn_rec(ptr(12), tgt) + a_rec(rng.choice([ptr(12), qn]))
+        return d if rng.random() < 0.7 else hdr(rid, 0x8180, 1, 1) + q + cn_rec(qn, tgt)
+    if fam == 'cname-loop':         # www -> cdn.www -> www: two aliases pointing at each other (records are reported, never followed)
+        cdn = b'\x03cdn' + ptr(12)
+        r1 = cn_rec(ptr(12), cdn)
+        off_cdn = 12 + len(q) + 2 + 10
+        return hdr(rid, 0x8180, 1, 2) + q + r1 + cn_rec(ptr(off_cdn), rng.choice([ptr(12), qn]))
+    if fam == 'cname-chain':        # www -> a.www -> b.a.www -> address, owners given as pointers into the previous record's rdata
+        d = hdr(rid, 0x8180, 1, 3) + q
+        o1 = len(d) + 2 + 10; d += cn_rec(ptr(12), b'\x01a' + ptr(12))
+        o2 = len(d) + 2 + 10; d += cn_rec(ptr(o1), b'\x01b' + ptr(o1))
+        return d + a_rec(ptr(o2))
+    if fam == 'owner-literal':      # the A record's owner as a pointer to the question, a literal copy, a partial copy + pointer, another name
+        owner = rng.choice([ptr(12), qn, b'\x03www' + ptr(16), b'\x03www\x07example' + ptr(24), b'\x05other\x00', b'\x00'])
+        return body + a_rec(owner)
     if fam == 'ptr-last-byte':      # the first byte of a compression pointer is the last byte of the datagram
         where = rng.choice(['owner', 'cname', 'question'])
         if where == 'owner': return body + b'\xc0'
@@ -705,10 +726,149 @@ def directed3():
     yield ['lookup', 'lookupn', 'lookupn 61 - -,', 'lookupn 6g - -', 'lookupn 61 64 -', 'lookupn 61 - 4096', 'lookupn 61 - 1,', 'sock', 'sock ,', 'sock E', 'sock Ex', 'sock -',
            'sock 0g', 'sock 00,', 'recva 8 00', 'recva x 00', 'recva 1', 'recva 1 0g', 'lookupn - - -', 'sock Z', 'recva 0 -', 'cancel 1', 'cancel 2']
 
+
+# ----------------------------------------------------------------------------- round 4: clock, lifetime, state-derived inputs
+
+SUBSEC = [1, 250, 400, 500, 999, 1000, 1001, 1500, 1999, 2000, 2500, 3999, 4000, 4001, 4999, 5000, 5001, 6000, 9999]
+JUMPS = [60000, 600000, 3600000, 7200000]
+BIGJUMPS = [2**31 - 1, 2**31, 2**31 + 1, 2**32 - 1, 2**32, 2**32 + 5000, 2**33 + 1]     # int / uint32_t boundaries of a millisecond difference
+
+
+def nx(i): return hdr(i, 0x8183, 1, 0) + b'\x05verif\x07example\x03com\x00' + u16(1) + u16(1)
+
+
+def gen_clock(rng, big=False):
+    """the steady clock moves by arbitrary amounts between passes: sub-second steps (the timer's phase: a lookup issued
+    400 ms after the previous one drained gets a NEW timer), passes that come late (1.5 s, 4.999 s, 5.001 s), jumps of
+    minutes/hours (the persistent timer catches up inside one pass; with a retrying timeout script it never drains) and -
+    with finite retry chains only - jumps across 2^31 and 2^32 ms"""
+    ops = []
+    ns = rng.choice([1, 1, 2])
+    if ns != 1: ops.append('servers %d' % ns)
+    ops += ['defscript L1', 'defscript -', 'defscript S,L1']
+    scripts = ['', ' 0', ' 1', ' 2']
+    if not big:
+        ops.append('defscript L3')          # retries for ever
+        scripts += [' 3', ' 3']
+    n = 0
+    for _ in range(rng.choice([4, 8, 14])):
+        r = rng.random()
+        if r < 0.32 or n == 0:
+            ops.append('lookup' + rng.choice(scripts)); n += 1
+        elif r < 0.40: ops.append('cancel %d' % rng.randrange(1, n + 3))
+        elif r < 0.50: ops.append(rng.choice(['recv ', 'net ']) + hx(rng.choice([good_reply, nx])(rng.randrange(1, n + 3))))
+        elif r < 0.55: ops.append('running %d' % rng.randrange(1, n + 3))
+        elif r < 0.88: ops.append('adv %d' % rng.choice(SUBSEC))
+        else: ops.append('adv %d' % rng.choice(BIGJUMPS if big else JUMPS))
+    for i in range(1, n + 3): ops.append('running %d' % i)
+    ops += rng.choice([['adv 5000'], ['adv 4999', 'adv 1'], ['tick'] * 5, ['adv 2500', 'adv 2500'], ['adv %d' % rng.choice(BIGJUMPS if big else JUMPS)]])
+    for i in range(1, n + 3): ops.append('running %d' % i)
+    ops += ['adv 1000', 'adv 5000']
+    return ops
+
+
+def gen_destroy(rng):
+    """~DnsRequest() with lookups outstanding (scripted ones too), the ring populated, the timer armed, a datagram for one
+    of them on its way; then the loop goes on: time passes (sub-second, 5 s, hours), a fresh object hands the same ids out
+    again from 1 and replies for them arrive - only lookups of the living object are ever called back"""
+    ops = ['defscript L1', 'defscript -', 'defscript C1,L0']
+    n = 0
+    for rnd in range(rng.choice([1, 2, 3])):
+        k = rng.choice([0, 1, 2, 4])
+        for _ in range(k):
+            ops.append('lookup' + rng.choice(['', '', ' 0', ' 2'])); n += 1
+            if rng.random() < 0.3: ops.append('adv %d' % rng.choice([300, 1000, 1700]))
+        if k and rng.random() < 0.3: ops.append('recv ' + hx(nx(rng.randrange(1, k + 1))))
+        if k and rng.random() < 0.2: ops.append('cancel %d' % rng.randrange(1, k + 1))
+        if k and rng.random() < 0.3: ops.append('net ' + hx(good_reply(rng.randrange(1, k + 1))))      # picked up in the pass before the destructor
+        nsrv = rng.choice([1, 1, 2, 0])
+        ops.append('destroy %d' % nsrv)
+        for i in range(1, k + 2): ops.append('running %d' % i)
+        ops.append('adv %d' % rng.choice([999, 1000, 5000, 3600000]))
+        ops.append('recv ' + hx(good_reply(1)))               # the dead object's id 1: nothing is outstanding in the new one
+        ops.append('lookup' + rng.choice(['', ' 0']))          # refused when the new object has no server
+        if nsrv == 0: ops += ['servers 1', 'lookup']
+        ops.append('running 1')
+        if rng.random() < 0.6: ops.append(rng.choice(['recv ', 'net ']) + hx(rng.choice([good_reply, nx])(1)))   # ... now it is
+        ops.append('adv %d' % rng.choice([400, 1000, 4000, 5000, 6000]))
+    ops += ['running 1', 'running 2', 'adv 5000', 'adv 5000', 'running 1', 'running 2']
+    return ops
+
+
+def gen_state(rng):
+    """inputs derived from the client's cached state (lesson g): a reply carrying the id that the NEXT request() will be
+    handed; the id of a lookup that was cancelled / completed / timed out, handed out again after the 16-bit counter
+    wrapped (ABA), with the old ring entry still in the wheel; the same reply twice in one pass; a retry with the same
+    name issued from the callback that the first of two identical replies triggers"""
+    ops = ['defscript L0', 'defscript -', 'defscript L1']
+    how = rng.choice(['next-id', 'next-id', 'next-id', 'aba', 'aba2', 'twice', 'twice', 'twice-retry', 'twice-retry'])
+    if how == 'next-id':
+        k = rng.choice([1, 2, 3])
+        ops += ['lookup'] * k
+        d = rng.choice([good_reply, nx])(k + 1)
+        ops += [rng.choice(['recv ', 'net ']) + hx(d), 'running %d' % (k + 1), 'lookup' + rng.choice(['', ' 1', ' 2']), 'running %d' % (k + 1)]
+        if rng.random() < 0.7: ops += [rng.choice(['recv ', 'net ']) + hx(d), 'running %d' % (k + 1), 'running %d' % (k + 2)]
+        # ... and across the wrap: counter at 65535, the next id is 1
+        if rng.random() < 0.2:
+            ops += ['churn %d' % (65535 - (k + 1) - rng.choice([0, 1])), 'recv ' + hx(good_reply(k + 2 if rng.random() < 0.5 else 65535)), 'lookup', 'lookup',
+                    'running 65535', 'running %d' % (k + 2), 'recv ' + hx(good_reply(65535)), 'recv ' + hx(good_reply(k + 2))]
+    elif how in ('aba', 'aba2'):
+        two = how == 'aba2'
+        ops += ['lookup' + rng.choice(['', ' 2'])] + (['lookup'] if two else [])
+        ops += ['adv %d' % rng.choice([0, 1000, 2000, 3500])]
+        end = rng.choice(['cancel', 'reply', 'timeout'])
+        if end == 'cancel': ops.append('cancel 1')
+        elif end == 'reply': ops.append('recv ' + hx(nx(1)))
+        else: ops += ['adv 5000'] if not two else ['cancel 1']
+        ops.append('running 1')
+        # the counter goes round: every id from here to 65535 is used and released, 0 is skipped, 1 is free again
+        ops.append('churn 65533' if two else 'churn 65534')
+        ops += ['lookup' + rng.choice(['', ' 1']), 'running 1', 'running 2', 'running 3']
+        if two: ops += ['lookup', 'running 3']                                # skips the outstanding 2
+        ops += rng.choice([['adv 1000'] * rng.choice([1, 2, 4]), ['adv 1500', 'adv 2500'], []])       # the old entry (1, old serial) leaves the wheel
+        ops.append('running 1')
+        if rng.random() < 0.6: ops += ['recv ' + hx(rng.choice([good_reply, nx])(1)), 'running 1']
+    else:
+        retry = how == 'twice-retry'
+        ops += ['lookup' + (' 0' if retry else rng.choice(['', ' 1'])), 'lookup']
+        d = rng.choice([good_reply, nx])(1)
+        second = rng.choice([d, d, good_reply(3) if retry else d])                # id 3 = the retry issued by the first one's callback
+        ops.append('sock ' + ','.join([hx(d), hx(second)] + ([hx(d)] if rng.random() < 0.4 else [])))
+        ops += ['running 1', 'running 2', 'running 3', 'recv ' + hx(d), 'recva %d %s' % (rng.randrange(8), hx(d))]
+    ops += ['running 1', 'running 2'] + rng.choice([['tick'] * 6, ['adv 5000', 'adv 5000'], ['adv 20000']]) + ['running 1', 'running 2', 'running 3']
+    return ops
+
+
+def directed4():
+    """round 4 directed cases"""
+    # the timer's phase: the ring drains at 5000, a lookup at 5300 arms a NEW timer (6300, ...): times out in the pass at 10300, not at 10000
+    yield ['lookup', 'adv 5000', 'adv 300', 'lookup', 'adv 700', 'running 2', 'adv 3999', 'running 2', 'adv 1', 'running 2', 'adv 299', 'running 2', 'adv 1', 'running 2']
+    # a late pass: 4999 ms fire four times, one more millisecond the fifth
+    yield ['lookup', 'adv 4999', 'running 1', 'adv 1', 'running 1']
+    # one pass after 5001 ms / after two hours: five firings, then the timer is off; nothing fires afterwards
+    yield ['lookup', 'lookup', 'adv 5001', 'running 1', 'running 2', 'adv 7200000', 'lookup', 'adv 999', 'adv 1', 'adv 7200000', 'running 3']
+    # catch-up with a retrying timeout script: the hour is one pass, every retry is called once
+    yield ['defscript L0', 'lookup 0', 'adv 2000', 'lookup 0', 'adv 3600000', 'running 1', 'cancel 1', 'adv 5000']
+    # jumps across 2^31 / 2^32 ms with a finite retry chain
+    for j in BIGJUMPS:
+        yield ['defscript L1', 'defscript -', 'lookup 0', 'adv 1500', 'lookup', 'adv %d' % j, 'running 1', 'running 2', 'running 3', 'adv %d' % j, 'running 3', 'lookup', 'adv 5000']
+    # the last outstanding lookup is cancelled from inside another lookup's callback: the socket is released inside its own
+    # read callback, the timer keeps running until the wheel is empty, the next lookup keeps the old phase
+    yield ['defscript C2', 'lookup 0', 'lookup', 'net ' + hx(good_reply(1)), 'running 2', 'adv 1400', 'lookup', 'adv 3600', 'running 3', 'adv 1000', 'running 3', 'adv 400', 'running 3']
+    yield ['defscript C2,C3', 'lookup 0', 'lookup', 'lookup'] + ['tick'] * 5 + ['running 2', 'running 3', 'lookup', 'adv 999', 'adv 4001', 'running 4']
+    # destructor: outstanding plain and scripted lookups, armed timer, populated wheel; the new object reuses id 1
+    yield ['defscript L0', 'lookup 0', 'lookup', 'tick', 'lookup', 'destroy 1', 'running 1', 'adv 10000', 'recv ' + hx(good_reply(1)), 'lookup', 'running 1',
+           'recv ' + hx(good_reply(2)), 'recv ' + hx(good_reply(1)), 'adv 5000', 'destroy 2', 'destroy 0', 'lookup', 'servers 1', 'lookup', 'destroy 3', 'adv 5000']
+    yield ['lookup', 'net ' + hx(good_reply(1)), 'destroy 1', 'lookup', 'sock ' + hx(good_reply(1)) + ',' + hx(good_reply(1)), 'destroy 1', 'adv 3600000']
+    # malformed lines of the new ops
+    yield ['lookup', 'adv', 'adv x', 'adv 17179869184', 'adv -1', 'adv 1 2', 'destroy', 'destroy 4', 'destroy x', 'adv 0', 'destroy 1', 'cancel 1']
+
 def gen(rng, tier):
     for c in directed():
         yield c
     for c in directed3():
+        yield c
+    for c in directed4():
         yield c
     n = 500 if tier == 'quick' else 6000
     for i in range(n):
@@ -738,6 +898,14 @@ def gen(rng, tier):
         yield gen_sock(rng)
     for i in range(30 if tier == 'quick' else 300):
         yield gen_align(rng)
+    for i in range(90 if tier == 'quick' else 900):
+        yield gen_clock(rng)
+    for i in range(20 if tier == 'quick' else 200):
+        yield gen_clock(rng, big=True)
+    for i in range(60 if tier == 'quick' else 600):
+        yield gen_destroy(rng)
+    for i in range(45 if tier == 'quick' else 400):
+        yield gen_state(rng)
     # a name whose query exceeds the largest UDP payload: every sendto fails with EMSGSIZE on its own
     yield ['lookupn ' + hx(b'.'.join([b'x' * 60] * 1100)) + ' - -', 'running 1'] + ['tick'] * 5 + ['running 1']
     if tier == 'thorough':
@@ -778,7 +946,7 @@ def fingerprint(ops, d):
     return hashlib.sha1((kinds + '|' + what + '|' + size).encode()).hexdigest()[:12]
 
 
-LEVEL_TEXT = ('Lean 4 theorems over a hand-written model of the DNS client (request encoder, UDP socket layer with the kernel\'s answers as oracle inputs, reply parser, pending map + timeout ring): well-formed names round-trip through encoder and decoder (partial: request() checks nothing, 4 counterexample theorems), failed/empty recvfrom answers are no-ops, a datagram cut by the 4096-byte buffer reports only what the full datagram encodes, a QR=0 echo completes nothing, the record loops run at most |d|/5+1 and |d|/11+1 iterations whatever the counts claim; name decoding needs fuel <= 17*(len+2) (hop limit), '
+LEVEL_TEXT = ('Round 4: clock/lifetime layer - C15_callback_once for every history with arbitrary clock advances (a pass = k catch-up firings of the persistent timer, none skipped or doubled) and object destructions (a lookup outstanding at destruction is never called, the dead object is quiet), the timer is armed strictly ahead of the clock by at most one interval whenever anything is in the ring, a pass 5 s or more after the previous operation completes everything that was outstanding; a timeout is five FIRINGS, not five seconds (example theorem: retries inside a catch-up pass time out with zero delay). Lean 4 theorems over a hand-written model of the DNS client (request encoder, UDP socket layer with the kernel\'s answers as oracle inputs, reply parser, pending map + timeout ring): well-formed names round-trip through encoder and decoder (partial: request() checks nothing, 4 counterexample theorems), failed/empty recvfrom answers are no-ops, a datagram cut by the 4096-byte buffer reports only what the full datagram encodes, a QR=0 echo completes nothing, the record loops run at most |d|/5+1 and |d|/11+1 iterations whatever the counts claim; name decoding needs fuel <= 17*(len+2) (hop limit), '
               'no parse outcome reads an unset destination and every dereferenced byte range lies inside the datagram, every reported '
               'address/name is decoded from in-bounds bytes of completely present records, each lookup\'s callback runs at most once, '
               'C15_callback_once at full strength: each lookup\'s callback runs exactly once — a reply/error before, or a timeout exactly at, its fifth tick — unless cancelled (then never) or refused, for every history incl. id wrap and callbacks that issue and cancel lookups (the id allocation provably finds a free id: pigeonhole); '
